@@ -121,6 +121,13 @@ CHECKS['C06'] = dict(
     note='Trusted: operation-point granularity is the python-level file operation, not machine instructions inside one write(2); the file proxy forwards to the real file object. "Last accepted" is read leniently for an interrupt inside the rewrite that installs it. ' + SCHED_NOTE,
     design='3/C06')
 
+CHECKS['C10'] = dict(
+    level='fault_enumeration', engine='FAULT',
+    technique='enumeration of all placements of command faults over the invocations of a run, through the real checker with a virtual subprocess/resource/clock; real-kernel validation runs',
+    text='52 scenarios (3 strategies, -j 1/2, explicit and derived time limit, --memout, match strings, cross check with its own limit, faulty golden runs, golden runs lacking the match string) run the real main() with the real checker.execute / check / do_golden_runs over a virtual subprocess module, resource module and clock; every placement of <=1 (thorough 2) faults {never finishes (incl. a wrapper whose child keeps the pipes open), CPU-limit death, memory-limit death, signal death} over the command invocations is explored (6.7 k executions quick). Oracle: a faulty candidate is never written to the output file, every timed-out process was killed, the run completes, each invocation got the configured/derived limit (1.5 x (golden + 1); cross check its own), RLIMIT_CPU = ceil(limit) and RLIMIT_AS = memout MiB were set on the child, virtual elapsed time <= tests x limit, a golden run without the match string (or without output) ends with status 1 before any test, legal slow cross-check runs do not change the result. REAL: the real checker.execute on sleeping / spinning / allocating / self-SEGV commands with tiny limits returns the answers the virtual layer assumes and leaves no child behind; two real bin/ddsmt runs with a hanging candidate terminate without adopting it.',
+    note='Trusted: the virtual Popen/resource/clock of ddv/checks/c10.py (validated by the 7 real runs); REAL oracles use generous margins so that machine load cannot falsify them. ' + SCHED_NOTE,
+    design='3/C10')
+
 ENGINES = [
     dict(name='FAULT', path='ddv/checks/c06.py', serves_properties=['C06', 'C10'],
          kind_free_text='file-operation proxy, interrupt injection, virtual subprocess / clock (C10), on top of the SCHED launcher'),
